@@ -327,6 +327,40 @@ example : (predFut (xDiamond failCfg_U)
     [.prop "C07" "invoke 3" false, .prop "C07" "invoke 3 (conflicts with a failed function)" false] := by
   decide
 
+set_option maxRecDepth 100000 in
+/-- the C07 note at the failure itself ("nothing ordered after the failing function was started
+    before") is emitted in this run, with the non-empty list `[0, 2]` of started functions, and it
+    is the only note of the `fin 2 false` event; it holds -/
+example : (predRun (xDiamond failCfg_U) {} failEvents_U).2.filter (fun n =>
+    n == .prop "C07" "end 2 err (a function ordered after it was started before)" true) =
+    [.prop "C07" "end 2 err (a function ordered after it was started before)" true] ∧
+    (predRun (xDiamond failCfg_U) {} (failEvents_U.take 7)).1.realInvoked = [0, 2] ∧
+    (predFut (xDiamond failCfg_U) (predRun (xDiamond failCfg_U) {} (failEvents_U.take 7)).1
+      (.fin 2 false)).2 =
+      [.prop "C07" "end 2 err (a function ordered after it was started before)" true] := by decide
+
+set_option maxRecDepth 100000 in
+example : (predRun (xDiamond failCfg_U) {} failEvents_U).2.length = 37 := by decide
+
+set_option maxRecDepth 100000 in
+/-- that note is falsifiable: had `3` (ordered after `2` in the scheduling graph) been started
+    before `2` failed — a run in the wrong direction — the note would be false; a successful end
+    emits no note -/
+example : (predFut (xDiamond failCfg_U)
+    { realInvoked := [0, 3, 2], realEnded := [0, 3], realEndedOk := [0, 3] } (.fin 2 false)).2 =
+    [.prop "C07" "end 2 err (a function ordered after it was started before)" false] ∧
+    (predFut (xDiamond failCfg_U)
+    { realInvoked := [0, 3, 2], realEnded := [0, 3], realEndedOk := [0, 3] } (.fin 2 true)).2 = [] := by
+  decide
+
+set_option maxRecDepth 100000 in
+/-- the same on a whole observed trace in the wrong direction (`3` first, then `1`, `2`, and `2`
+    fails): the note at the failure is among the failing ones -/
+example : (Note.prop "C07" "end 2 err (a function ordered after it was started before)" false) ∈
+    (predRun (xDiamond failCfg_U) {}
+      [.handout 3, .invoke 3, .fin 3 true, .handout 2, .handout 1, .invoke 2, .invoke 1, .fin 2 false]).2 := by
+  decide
+
 /-! ### C10: a limit is work-conserving (the model fact behind the "idle below limit" note) -/
 
 /-- **C10** (work conservation), re-exported from `Proofs/UIdle.lean`: limit `l+1`, not
